@@ -653,6 +653,19 @@ func runSweep(w *World) *sweepResult {
 						sr.failed = append(sr.failed, fmt.Sprintf("%s$lit%d: %v", shortName(k), nlit, r))
 					}
 				}()
+				// a literal with its own contract (closure contracts): its preconditions discharge its safety sites,
+				// and every call of the closure is checked against them
+				if li, fl2 := litInfo(w, fi, nlit); li != nil && fl2 == fl && li.Contract != nil && len(li.Contract.Props) > 0 && !li.Contract.NoSafety && !li.Contract.Trusted {
+					lres := genLit(w, li, fl)
+					if lres.Err == "" {
+						for _, o := range lres.Obls {
+							if o.Kind == "safe" {
+								safe = append(safe, o)
+							}
+						}
+						return
+					}
+				}
 				fv, st := newScratchVC(w, fi)
 				fv.mode = "safety"
 				fv.litMode = true
